@@ -238,6 +238,8 @@ static void cb_common(void *cookie, int kind, int band, int hid)
 		o->reg = 0;
 		if (!(kind == K_TK && keeptasks))
 			quarantine(kind, c->id);
+		if (memrec_words)
+			sync_log("rel", 6000 + kind * 16 + c->id);
 	}
 	if (kind == K_WI && band == 2) {
 		/* completion: the item is the caller's again (and the scenario
@@ -360,6 +362,24 @@ static ssize_t io_rw(int fd, int wr, long n)
 static int do_env(struct op *p);
 static void *thread_body(void *arg);
 
+static int kind_of_op(const char *n)
+{
+	static const struct { const char *pre; int k; } t[] = { {"fd_", K_FD}, {"tm_", K_TM}, {"tk_", K_TK}, {"ev_", K_EV},
+		{"raw_", K_RAW}, {"sig_", K_SIG}, {"wait_", K_WAIT}, {"popen", K_POPEN}, {"pool_", K_POOL}, {NULL, 0} };
+	for (int i = 0; t[i].pre; i++)
+		if (!strncmp(n, t[i].pre, strlen(t[i].pre)))
+			return t[i].k;
+	return -1;
+}
+static int is_reg_op(const char *n)
+{
+	return strstr(n, "_reg") || !strcmp(n, "fd_try") || !strcmp(n, "wait_spawn") || !strcmp(n, "popen") || !strcmp(n, "pool_create");
+}
+static int is_unreg_op(const char *n)
+{
+	return strstr(n, "_unreg") || !strcmp(n, "popen_close") || !strcmp(n, "pool_put");
+}
+
 static void do_op(struct op *p)
 {
 	const char *n = p->name;
@@ -373,7 +393,7 @@ static void do_op(struct op *p)
 	/* the scenario program hands objects between its threads with proper
 	 * synchronisation: registration happens-before use by another thread,
 	 * use happens-before unregistration */
-	int hk = -1, hreg = 0, huse = 0, hunreg = 0;
+	int hk = -1, hreg = 0, huse = 0, hunreg = 0, gk = -1;
 	if (memrec_words) {
 		if (!strncmp(n, "ev_", 3)) hk = K_EV; else if (!strncmp(n, "raw_", 4)) hk = K_RAW;
 		else if (!strncmp(n, "pool_", 5)) hk = K_POOL;
@@ -384,6 +404,11 @@ static void do_op(struct op *p)
 		int hid = !strncmp(n, "submit", 6) ? (int)p->a[1] : id;
 		if (hk >= 0 && huse) sync_log("acq", 2000 + hk * 16 + hid);
 		if (hk >= 0 && hunreg) sync_log("acq", 3000 + hk * 16 + hid);
+		/* an object's memory is the program's between uses: whoever registers it next
+		 * does so after the previous unregistration (possibly in another thread) returned */
+		gk = kind_of_op(n);
+		if (gk >= 0 && is_reg_op(n))
+			sync_log("acq", 6000 + gk * 16 + id);
 	}
 	if (!strcmp(n, "fd_reg") || !strcmp(n, "fd_try")) {
 		OBJ(K_FD);
@@ -814,6 +839,8 @@ out:
 		if (hreg) sync_log("rel", 2000 + hk * 16 + hid);
 		if (huse) sync_log("rel", 3000 + hk * 16 + hid);
 	}
+	if (memrec_words && gk >= 0 && is_unreg_op(n))
+		sync_log("rel", 6000 + gk * 16 + id);
 	inapi--;
 #undef OBJ
 }
@@ -1252,12 +1279,14 @@ int main(int argc, char **argv)
 			if (t1.tv_sec - t0.tv_sec >= timeout_s)
 				ntimeouts++;
 			if (WIFSIGNALED(st)) {
-				/* the child could not write its own End record */
+				/* the child could not write its own records (its buffer is lost) */
 				me = 0;
+				tr("\"e\":\"Reset\",\"id\":\"%s\",\"m\":\"%s\",\"nf\":0}", script_id, method);
 				tr("\"e\":\"End\",\"why\":\"%s\",\"sig\":%d,\"now\":[0,0]}",
 				   WTERMSIG(st) == SIGALRM ? "timeout" : "killed", WTERMSIG(st));
 				tr_flush();
 			} else if (WEXITSTATUS(st) != 0) {
+				tr("\"e\":\"Reset\",\"id\":\"%s\",\"m\":\"%s\",\"nf\":0}", script_id, method);
 				tr("\"e\":\"End\",\"why\":\"exit\",\"sig\":%d,\"now\":[0,0]}", WEXITSTATUS(st));
 				tr_flush();
 			}
